@@ -23,7 +23,7 @@ OPEN = {
 	'C02': 'Open: a theorem for whole pipelines including start line and header section (the body layer is proved; the rest is correspondence + the independent writer as oracle).',
 	'C03': 'Stack depth and running time are runtime behaviour: measured (deep inputs under a lowered recursion limit; long runs with hostile tails under a wall-clock budget in a child interpreter), not proved. zlib, email.header.decode_header and the idna codec are outside the model (`needsOracle`); for those inputs only the oracle on the real code speaks.',
 	'C04': 'Open: one theorem for the whole message. It would compose C18 (start line), C10 (target), C08 (header lines), C05 (framing) and C02/C01 (reader); each link is proved or tied separately, the conjunction is decided by the oracle.',
-	'C05': 'Open: idempotence of prepare() for responses as a theorem (proved for requests; for responses the operation orders p-c-p-c etc. are compared with the code). Non-destructiveness of body sources (file positions, generator buffering) is behaviour of Python objects: decided by repeated composition on the real code.',
+	'C05': 'Idempotence of prepare() is proved for requests and for responses other than to HEAD (`prepareRequest_idem`, `prepareResponse_idem`); the HEAD exception is finding F46. Non-destructiveness of body sources (file positions, generator buffering) is behaviour of Python objects: decided by repeated composition on the real code.',
 	'C06': 'Relies on C11 (`abspath_clean`, `abspath_fixed`).',
 	'C07': 'The HTTP/1.0 + chunked combination is finding F6.',
 	'C08': 'Open: `parse (compose h) = h` for whole collections as one theorem (`parse_line_step` is its inductive step; whole op sequences are compared with the code).',
